@@ -22,22 +22,18 @@ variable {V : Type} [NumOps V]
 def ObjectiveLaw (V : Type) [NumOps V] : Prop :=
   ∀ (q : V), NumOps.ge q NumOps.zero = true → NumOps.le q NumOps.one = true → ∀ l, queryPanics l q = false
 
-/-- `AgeBuckets` is a `uint32` in Go -/
-def uint32Bound : Nat := 4294967296
+/-- **What `accepted_config_safe` assumes** about the number type:
+    * `objectiveLaw`: ranks in `[0, 1]` never make `Query` index out of range (IEEE fact about `ceil(l·q)`).
 
-/-- **What `accepted_config_safe` assumes** about the number type and the raw configuration:
-    * `objectiveLaw`: ranks in `[0, 1]` never make `Query` index out of range (IEEE fact about `ceil(l·q)`);
-    * `defaultsAgeBuckets`, `rulesAgeBuckets`: every `age_buckets` in the raw configuration (defaults and each
-      rule's `summary_options`, `rawAgeB r`; 0 when absent) fits Go's `uint32`. With `max_age = 0` the stream
-      duration is `600000000000 / age_buckets`, which `validateSummaryOptions` does not check because it
-      cannot be zero for a `uint32`; the model's `age_buckets` is an unbounded `Nat`.
+    Nothing is assumed about the raw configuration any more. Until the repair 2eac18a the structure also asked for
+    every `age_buckets` to fit Go's `uint32`: with `max_age` unset the stream duration is `600000000000 / age_buckets`,
+    which the loader did not check; it now validates the effective window (library defaults filled in) against
+    `minStreamDuration`, so the typing fact is no longer needed.
 
     The library defaults `db` / `dq` handed to `load` need no hypothesis: `load` validates the *effective*
     defaults, which are the library's whenever the configuration sets none. -/
 structure LoaderAssumptions (raw : RawConfig V) : Prop where
   objectiveLaw : ObjectiveLaw V
-  defaultsAgeBuckets : raw.defaults.summaryOpts.ageBuckets < uint32Bound
-  rulesAgeBuckets : ∀ r, r ∈ raw.rules → rawAgeB r < uint32Bound
 
 /-- the library defaults handed to `load` are themselves valid (`prometheus.DefBuckets` strictly increasing,
     `defaultQuantiles` with ranks in `[0, 1]`); needed only for a configuration without defaults of its own to
@@ -66,19 +62,6 @@ theorem objectivesSafe_of_ranks (law : ObjectiveLaw V) (quantiles : List (V × V
   subst e
   exact law p.1 (h p hp).1 (h p hp).2 l
 
-/-- a `uint32` number of age buckets cannot make the default ten-minute window vanish -/
-theorem default_window_ne_zero (ageBuckets : Nat) (hab : ageBuckets < uint32Bound) :
-    (600000000000 : Int) / ((if ageBuckets == 0 then 5 else ageBuckets : Nat) : Int) ≠ 0 := by
-  unfold uint32Bound at hab
-  have h1 : (1 : Int) ≤ 600000000000 / ((if ageBuckets == 0 then 5 else ageBuckets : Nat) : Int) := by
-    apply Int.le_ediv_of_mul_le
-    · split <;> rename_i h
-      · decide
-      · have : ageBuckets ≠ 0 := by simpa using h
-        omega
-    · split <;> omega
-  omega
-
 theorem streamDuration_eq (maxAge : Int) (ageBuckets : Nat) :
     streamDuration maxAge ageBuckets =
       (if maxAge == 0 then 600000000000 else maxAge) / ((if ageBuckets == 0 then 5 else ageBuckets : Nat) : Int) := by
@@ -87,10 +70,10 @@ theorem streamDuration_eq (maxAge : Int) (ageBuckets : Nat) :
     split <;> rfl
   rw [e]
 
-/-- options that passed `validateSummaryOptions`, with a `uint32` number of age buckets: `NewSummary` does not
+/-- options that passed `validateSummaryOptions`: `NewSummary` does not
     panic and `Observe` does not hang -/
 theorem maxAge_safe_of_ok {quantiles : List (V × V)} {maxAge : Int} {ageBuckets : Nat}
-    (h : summaryOptsOk quantiles maxAge ageBuckets = true) (_hab : ageBuckets < uint32Bound) :
+    (h : summaryOptsOk quantiles maxAge ageBuckets = true) :
     0 ≤ maxAge ∧ streamDuration maxAge ageBuckets ≠ 0 := by
   obtain ⟨_, h2, h3⟩ := (summaryOptsOk_iff _ _ _).mp h
   refine ⟨h2, ?_⟩
@@ -106,9 +89,9 @@ theorem streamDuration_ge_of_ok {quantiles : List (V × V)} {maxAge : Int} {ageB
   exact ((summaryOptsOk_iff _ _ _).mp h).2.2
 
 theorem summarySafe_of_ok (law : ObjectiveLaw V) {quantiles : List (V × V)} {maxAge : Int} {ageBuckets : Nat}
-    (h : summaryOptsOk quantiles maxAge ageBuckets = true) (hab : ageBuckets < uint32Bound) :
+    (h : summaryOptsOk quantiles maxAge ageBuckets = true) :
     SummarySafe maxAge ageBuckets (quantiles.map (·.1)) :=
-  ⟨(maxAge_safe_of_ok h hab).1, (maxAge_safe_of_ok h hab).2,
+  ⟨(maxAge_safe_of_ok h).1, (maxAge_safe_of_ok h).2,
     objectivesSafe_of_ranks law quantiles ((summaryOptsOk_iff _ _ _).mp h).1⟩
 
 /-! ### what the loader validated is what the exporter uses -/
@@ -117,37 +100,24 @@ theorem summarySafe_of_ok (law : ObjectiveLaw V) {quantiles : List (V × V)} {ma
 structure ConfigValidated (cfg : Config V) : Prop where
   dBuckets : strictlyIncreasing cfg.dBuckets = true
   dSummary : summaryOptsOk cfg.dQuantiles cfg.dMaxAge cfg.dAgeBuckets = true
-  dAgeBuckets : cfg.dAgeBuckets < uint32Bound
   ruleBuckets : ∀ r, r ∈ cfg.rules → r.hasHistOpts = true → strictlyIncreasing r.buckets = true
   ruleSummary : ∀ r, r ∈ cfg.rules → r.hasSummaryOpts = true → summaryOptsOk r.quantiles r.maxAge r.ageBuckets = true
-  ruleAgeBuckets : ∀ r, r ∈ cfg.rules → r.ageBuckets < uint32Bound
 
 /-- **`load` validates**: the effective defaults and the effective options of every rule passed
-    `validateBuckets` / `validateSummaryOptions`; all age buckets are `uint32` if the raw ones are. -/
+    `validateBuckets` / `validateSummaryOptions`. -/
 theorem load_validated {rxOk : Bytes → Bool} {db : List V} {dq : List (V × V)} {raw : RawConfig V} {cfg : Config V}
-    (hd : raw.defaults.summaryOpts.ageBuckets < uint32Bound) (hr : ∀ r, r ∈ raw.rules → rawAgeB r < uint32Bound)
     (h : load rxOk db dq raw = .ok cfg) : ConfigValidated cfg := by
   obtain ⟨_, _, _, _, _, _, d, rules, _, _, _, _, _, _, _, e4, v1, v2, _, e6, e7, e8, e9⟩ := load_ok_inv h
-  have hdab : cfg.dAgeBuckets < uint32Bound := by
-    rw [e9, e4]
-    rcases defSumOpts_ageBuckets raw with e | e
-    · rw [e]; exact hd
-    · rw [e]; decide
-  refine ⟨by rw [e6]; exact v1, by rw [e7, e8, e9]; exact v2, hdab, fun rule hm hh => ?_, fun rule hm hs => ?_,
-    fun rule hm => ?_⟩
+  refine ⟨by rw [e6]; exact v1, by rw [e7, e8, e9]; exact v2, fun rule hm hh => ?_, fun rule hm hs => ?_⟩
   · obtain ⟨_, _, _, _, r, _, hl⟩ := load_ok_rule_of_mem h rule hm
     exact (loadRule_ok_opts hl).1 hh
   · obtain ⟨_, _, _, _, r, _, hl⟩ := load_ok_rule_of_mem h rule hm
     exact (loadRule_ok_opts hl).2.1 hs
-  · obtain ⟨_, _, _, _, r, hrm, hl⟩ := load_ok_rule_of_mem h rule hm
-    rcases (loadRule_ok_opts hl).2.2 with e | e
-    · rw [e]; exact hr r hrm
-    · rw [e]; exact hdab
 
 /-- a validated configuration is safe to run -/
 theorem configSafe_of_validated (law : ObjectiveLaw V) {cfg : Config V} (hv : ConfigValidated cfg) : ConfigSafe cfg := by
   have hdef : SummarySafe cfg.dMaxAge cfg.dAgeBuckets (cfg.dQuantiles.map (·.1)) :=
-    summarySafe_of_ok law hv.dSummary hv.dAgeBuckets
+    summarySafe_of_ok law hv.dSummary
   refine ⟨fun r hr _ => ?_, ?_⟩
   · unfold ObserverSafe
     split
@@ -171,7 +141,7 @@ theorem configSafe_of_validated (law : ObjectiveLaw V) {cfg : Config V} (hv : Co
         exact hdef
       | true =>
         have e1 : ruleMaxAge cfg r = (r.maxAge, r.ageBuckets) := by unfold ruleMaxAge; rw [hs]; rfl
-        have hrs := summarySafe_of_ok law (hv.ruleSummary r hr hs) (hv.ruleAgeBuckets r hr)
+        have hrs := summarySafe_of_ok law (hv.ruleSummary r hr hs)
         rw [e1]
         refine ⟨hrs.maxAge_nonneg, hrs.duration_ne_zero, ?_⟩
         unfold ruleObjectives
@@ -186,7 +156,7 @@ theorem configSafe_of_validated (law : ObjectiveLaw V) {cfg : Config V} (hv : Co
 /-- **Every configuration the loader accepts is safe to run** (under `LoaderAssumptions`). -/
 theorem load_configSafe {rxOk : Bytes → Bool} {db : List V} {dq : List (V × V)} {raw : RawConfig V} {cfg : Config V}
     (ha : LoaderAssumptions raw) (h : load rxOk db dq raw = .ok cfg) : ConfigSafe cfg :=
-  configSafe_of_validated ha.objectiveLaw (load_validated ha.defaultsAgeBuckets ha.rulesAgeBuckets h)
+  configSafe_of_validated ha.objectiveLaw (load_validated h)
 
 /-! ### histories that reload loaded configurations -/
 
